@@ -73,6 +73,12 @@ def cases(tier, seed):
     for k in (2, 3, 5, 9):
         yield {"kind": "dsk", "hist": [x for i in range(68 // k + 1) for x in ("g{}".format(k), SAVE)], "fill": k}
     yield {"kind": "dsk", "hist": [x for i in range(30) for x in ("g2", SAVE)] + ["g3", SAVE, "g3", SAVE, "g1", SAVE, "g1", SAVE, "g1", SAVE], "fill": "mix"}
+    # every file kind at the lengths where its stored stream (header + data + trailer) meets a granule boundary
+    for kindname in ("BAS", "DATB", "ML", "ASC", "DAT"):
+        h = c07.HDR[kindname]
+        for n in (2304 - h - 1, 2304 - h, 2304 - h + 1, 4608 - h - 1, 4608 - h, 4608 - h + 1):
+            for kind in ("dsk", "cas"):
+                yield {"kind": kind, "hist": [0, SAVE, "kb:{}:{}".format(kindname, n), SAVE, 1, SAVE]}
     # ASCII files have no 16-bit length field on a disk: they may be larger than 65,535 bytes, up to the whole disk
     for kind in ("dsk", "cas"):
         for h in ([0, SAVE, "asc70000", SAVE, 1, SAVE], ["asc65536", SAVE, 0, SAVE], ["asc65535", SAVE, 0, SAVE], ["asc156671", SAVE, SAVE],
@@ -101,6 +107,9 @@ def file_of(case, sym):
     if isinstance(sym, str) and sym.startswith("g"):
         k = int(sym[1:])
         return c07.fspec("ML", k * 2304 - 10 - 100, "G{}".format(k), pat="ramp7")
+    if isinstance(sym, str) and sym.startswith("kb:"):
+        _, kindname, n = sym.split(":")
+        return c07.fspec(kindname, int(n), "KB" + n, "DAT", pat="ramp7")
     if isinstance(sym, str) and sym.startswith("asc"):
         n = int(sym[3:])
         return c07.fspec("ASC", n, "T{}".format(n % 100000), "TXT", pat="ramp7")
@@ -299,7 +308,7 @@ def _compare(model, listed, kind):
 
 def describe(tier):
     return {
-        "alphabet": "operations add(f) for f in {} and save+re-open, on cassette and disk host files; histories of 2-4 steps on the container object itself "
+        "alphabet": "operations add(f) for f in {} and save+re-open, on cassette and disk host files; every file kind at the 6 lengths around its first two granule boundaries between two other files; histories of 2-4 steps on the container object itself "
                     "(add small / BASIC / ASCII / 30- and 40-granule files, re-open from bytes; additions that do not fit must be refused and leave the rest in place); ASCII files of 65535, 65536, 70000, 100000 bytes and of "
                     "exactly / one more than the whole disk (156671 / 156672 bytes) in 7 histories per medium; big-cassette histories with 65535-byte "
                     "files of 5 content patterns (incl. planted directory entries) crossing 161,280 bytes, and three files whose cassette image is "
